@@ -1,11 +1,4 @@
-usage: sweep.py phase1 [N-sample]      first-order mutants -> go build + the library's own suite (survivors = work list)
-       sweep.py cases                  case files of all properties (driver seed MUT_SEED, default 1) + clean generated files
-       sweep.py phase2 | phase2b | phase2c   survivors through the fast path | undetected ones again | detected ones again (other seed)
-       sweep.py retest <G1..G9> <props>   classified OBSERVABLE mutants of a group against freshly generated cases
-       sweep.py seeds                  every seeded/*/patch.diff through the fast path: is its own property silent?
-       sweep.py refactor <dirs>        behaviour-preserving patches (harmless/*): suite, judges, correspondence, generated files
-       sweep.py tiebuild <dirs>        the same patches: regenerate INTO lean/Astits/Generated and build (sequential; restores)
-       sweep.py report
+#!/usr/bin/env python3
 """Mechanical mutation sweep (developer tool, not a registered check; DESIGN.md Appendix F).
 
 phase1: every first-order mutant of mutgen -> scratch copy of /repo under /tmp/mut -> go build, then the repository's own
@@ -14,7 +7,14 @@ phase2: every survivor -> extract (are the regenerated Lean files different from
         harness built against the mutant, run over the case files the Lean driver generates for the clean tree
         (quick tier, seed 1, all twenty properties). A mutant is DETECTED when a judge fails (replay), a correspondence
         fails or a regenerated file differs (tie; the generated_* theorems compare those files with the model).
-usage: sweep.py phase1 [N-sample] | cases | phase2 [--only file.go] | report
+usage: sweep.py phase1 [N-sample]      first-order mutants -> go build + the library's own suite (survivors = work list)
+       sweep.py cases                  case files of all properties (driver seed MUT_SEED, default 1) + clean generated files
+       sweep.py phase2 | phase2b | phase2c   survivors through the fast path | undetected ones again | detected ones again (other seed)
+       sweep.py retest <G1..G9> <props>   classified OBSERVABLE mutants of a group against freshly generated cases
+       sweep.py seeds                  every seeded/*/patch.diff through the fast path: is its own property silent?
+       sweep.py refactor <dirs>        behaviour-preserving patches (harmless/*): suite, judges, correspondence, generated files
+       sweep.py tiebuild <dirs>        the same patches: regenerate INTO lean/Astits/Generated and build (sequential; restores)
+       sweep.py report
 """
 import json, os, random, shutil, subprocess, sys, time, multiprocessing as mp
 
